@@ -282,6 +282,7 @@ static uint8_t* ar_base[2];
 static size_t ar_top[2];
 static int ar_zone;
 uint64_t AR_foreign_free, AR_allocs, AR_frees, AR_live, AR_refused;
+size_t AR_cap = (size_t)1 << 20; /* single requests above this are refused */
 bool AR_refuse_all;
 volatile int vh_in_lib;
 uint64_t VH_bypass_calls;
@@ -342,7 +343,7 @@ bool ar_block_of(const void* addr, uintptr_t* base, size_t* size) {
 static void* ar_malloc(size_t n) {
   ar_init();
   if (AR_refuse_all) { AR_refused++; return NULL; }
-  if (n > ((size_t)1 << 20)) return NULL; /* keep huge declared counts on the refusal path */
+  if (n > AR_cap) return NULL; /* keep huge declared counts on the refusal path */
   int z = ar_zone, c = ar_class(n);
   struct ar_hdr* h = ar_freelist[z][c];
   if (h) {
